@@ -228,6 +228,18 @@ then random shapes up to 40x40 (thorough 64x64) with pseudo-random distinct entr
     let n = ctx.scale(20_000, 400_000);
     let maxdim = ctx.scale(40, 64) as usize;
     ctx.run_prop_par("broadcast", n, 8, || strat(maxdim), check);
+    if !ctx.quick() {
+        crate::engine::fuzzdrv::run(
+            ctx,
+            crate::engine::fuzzdrv::Campaign {
+                target: "c12",
+                runs_per_job: 500_000,
+                jobs: 8,
+                max_len: 64,
+                seeds: vec![vec![0, 3, 1, 3, 4, 1, 4, 1, 2, 3, 4, 5, 6, 7, 8], vec![1, 0, 3, 5, 5, 1, 5, 9, 9, 9, 9, 9, 9, 9, 9], vec![2, 2, 2, 1, 7, 7, 1, 0, 0, 0, 0, 0, 0, 0, 0]],
+            },
+        );
+    }
 }
 
 pub fn replay(ctx: &mut Ctx, sub: &str, v: Value) -> Option<R> {
